@@ -47,6 +47,13 @@ ObsReplacement ==
      IF Direct(pool, t) = {} THEN ev = {}
      ELSE ReplacementSound(pool, delta, t, ev) /\ PostPool \cap ev = {}
 ObsRejectNoEvict == (Act[1] = "submit" /\ ~Line.res.ok /\ Line.res.why # "mempool full") => pool \subseteq PostPool
+\* a package the node accepted as one replacement satisfies the package form of the conditions (Rule 5 on the package as a whole)
+ObsPkgReplacement ==
+  (Act[1] = "pkg" /\ GateWhy(Act[2]) = "ok" /\ ToSet(Line.res.evict) # {}) =>
+     LET u == PkgUnit(pool, etime, utxo, chain, delta, mf, Act[2], now)
+         evm == ToSet(Line.res.evict) \ u.ev
+     IN (~u.quit /\ Len(u.q) > 1 /\ evm # {} /\ SeqToSet(u.q) \subseteq PostPool)
+          => (PkgReplacementSound(u.p, delta, u.q, evm) /\ PostPool \cap evm = {})
 \* ---- C28: what passes the standard script checks passes the consensus script checks (ConsensusScriptChecks never fails)
 ObsPolicyImpliesConsensus == Act[1] \in {"submit", "test"} => Line.res.why # "consensus-script-failed"
 \* ---- C28: a test-accept changes nothing
